@@ -20,14 +20,15 @@
   by one (`Fx.deg_shift`: `cos` adds the I16F16 constant for 90 degrees before rounding to whole
   degrees, which rounds about one raw angle in 4600 — those within 0.0002 degrees below `k + 1/2` —
   to `k + 91`; the normal is then built from `sin k` and `cos (k + 1)`).
-  Relative to the EXACT rays of the raw angles one must add the rounding to whole degrees — up to
-  half a degree (`fixed_degree_nearest`), i.e. 64 px * sin 0.5 degrees = 0.56 px at the rim of a
-  diameter-128 circle — and the accuracy of the table (EG.Lemmas.SineTable): about 0.65 px in all,
-  inside the property's 1.5 px; the oracle measures 0.55 px on half-degree angles at d = 127 / 128.
+  Relative to the EXACT boundary lines of the raw angles one must add the rounding to whole degrees
+  — up to half a degree (`fixed_degree_nearest`), i.e. 64 px * sin 0.5 degrees = 0.56 px at the rim of a
+  diameter-128 circle — and the accuracy of the table: that is done, with `Real.sin` / `Real.cos`, in
+  EG/Props/C18/SineTable.lean (`fixed_normal_exact`: every computed normal within 10.32 of 1024 of the
+  exact one; `fixed_sector_angular_exact`: the claim with 1.5 px against the exact lines, every raw
+  angle pair). The oracle measures 0.55 px on half-degree angles at d = 127 / 128.
 
-  -- [V] the angular claim relative to the exact rays of the raw angles (whole-degree rounding: up to half a degree = 0.56 px at radius 64, plus the table's own error; proved here relative to the table rays, measured by the oracle at 0.55 px): carried by correspondence + oracle only
   -- [V] `Angle::from_degrees` / `from_radians` (f32 multiply / divide and `I16F16::from_num`: the relation between a user's degrees and the raw bits) is outside the model: carried by correspondence + oracle only
-  -- [V] difference between the boundary LINES (proved) and the boundary RAYS of `SectorAngle.AngularClaim` near the centre, fixed_point build: carried by correspondence + oracle only
+  -- [V] difference between the boundary LINES (proved, table lines here and exact lines in SineTable.lean) and the boundary RAYS of `SectorAngle.AngularClaim` near the centre, fixed_point build: carried by correspondence + oracle only
 -/
 import EG.Lemmas.FixedTrigSector
 import EG.Props.C18.Sector
@@ -78,17 +79,7 @@ theorem fixed_table_values :
     (∀ k : Nat, k ≤ 90 → sinTable[k]? = some (Fx.sinT k)) ∧
     (∀ k : Int, Fx.sinT (180 - k) = Fx.sinT k ∧ Fx.sinT (k + 180) = -Fx.sinT k ∧ Fx.sinT (k + 360) = Fx.sinT k ∧
       -65536 ≤ Fx.sinT k ∧ Fx.sinT k ≤ 65536) := by
-  refine ⟨by decide +kernel, fun k => ⟨?_, ?_, Fx.sinT_congr (by omega), Fx.sinT_bound k⟩⟩
-  · have h := Fx.int_range_of_nat (P := fun m => Fx.sinT (180 - m) = Fx.sinT m) 360 (by decide +kernel)
-      (k % 360) (by omega) (by omega)
-    rw [Fx.sinT_congr (a := 180 - k % 360) (b := 180 - k) (by omega),
-      Fx.sinT_congr (a := k % 360) (b := k) (by omega)] at h
-    exact h
-  · have h := Fx.int_range_of_nat (P := fun m => Fx.sinT (m + 180) = -Fx.sinT m) 360 (by decide +kernel)
-      (k % 360) (by omega) (by omega)
-    rw [Fx.sinT_congr (a := k % 360 + 180) (b := k + 180) (by omega),
-      Fx.sinT_congr (a := k % 360) (b := k) (by omega)] at h
-    exact h
+  exact ⟨by decide +kernel, fun k => ⟨Fx.sinT_reflect k, Fx.sinT_half_turn k, Fx.sinT_congr (by omega), Fx.sinT_bound k⟩⟩
 
 /-- **(a) The normal vector `with_angle` computes**, for every raw angle `a` it does not panic on: with
 `k` the whole degree of `a`, the normal is within 63/64 (of 1024) of `1024 * (-sinT k, cosT k)` in its
